@@ -1,0 +1,182 @@
+//go:build verif
+
+// Package verifhook holds verification hooks. With the "verif" build tag the
+// hooks can crash or pause the process at named points, inject errors, and
+// trace lock acquisition. They are armed through the environment
+// (child processes) or through the in-process registry (Set* functions).
+package verifhook
+
+import (
+	"fmt"
+	"os"
+	"runtime"
+	"strconv"
+	"strings"
+	"sync"
+	"syscall"
+
+	"github.com/dgraph-io/badger/v4"
+)
+
+var (
+	mu        sync.Mutex
+	hits      = map[string]int{}
+	crashAt   = map[string]int{} // point -> hit number that kills the process
+	callbacks = map[string]func(hit int){}
+	faults    = map[string]func(hit int) error{}
+	countFile string
+	lockTrace func(ev string, kind string, id string, gid int64)
+	envOnce   sync.Once
+)
+
+func loadEnv() {
+	envOnce.Do(func() {
+		// VERIF_CRASH=point:n[,point:n]
+		for _, spec := range strings.Split(os.Getenv("VERIF_CRASH"), ",") {
+			if p, n, ok := strings.Cut(spec, ":"); ok {
+				if k, err := strconv.Atoi(n); err == nil {
+					crashAt[p] = k
+				}
+			}
+		}
+		countFile = os.Getenv("VERIF_POINT_COUNTS")
+	})
+}
+
+// Point marks a named point. Armed actions: kill the process at the n-th hit
+// (VERIF_CRASH or SetCrash), or run a callback (SetCallback) which may block.
+func Point(name string) {
+	loadEnv()
+	mu.Lock()
+	hits[name]++
+	n := hits[name]
+	kill := crashAt[name] == n
+	cb := callbacks[name]
+	cf := countFile
+	mu.Unlock()
+	if cf != "" {
+		if f, err := os.OpenFile(cf, os.O_APPEND|os.O_CREATE|os.O_WRONLY, 0o644); err == nil {
+			fmt.Fprintf(f, "%s\n", name)
+			_ = f.Close()
+		}
+	}
+	if kill {
+		_ = syscall.Kill(os.Getpid(), syscall.SIGKILL)
+		select {}
+	}
+	if cb != nil {
+		cb(n)
+	}
+}
+
+// Fault returns an injected error when armed with SetFault.
+func Fault(name string) error {
+	loadEnv()
+	mu.Lock()
+	hits["fault:"+name]++
+	n := hits["fault:"+name]
+	f := faults[name]
+	mu.Unlock()
+	if f != nil {
+		return f(n)
+	}
+	return nil
+}
+
+// SetCrash arms a kill at the n-th hit of the point (n <= 0 disarms).
+func SetCrash(name string, n int) {
+	loadEnv()
+	mu.Lock()
+	if n <= 0 {
+		delete(crashAt, name)
+	} else {
+		crashAt[name] = n
+	}
+	mu.Unlock()
+}
+
+// SetCallback installs a callback for a point (nil removes it).
+func SetCallback(name string, cb func(hit int)) {
+	mu.Lock()
+	if cb == nil {
+		delete(callbacks, name)
+	} else {
+		callbacks[name] = cb
+	}
+	mu.Unlock()
+}
+
+// SetFault installs an error source for a fault point (nil removes it).
+func SetFault(name string, f func(hit int) error) {
+	mu.Lock()
+	if f == nil {
+		delete(faults, name)
+	} else {
+		faults[name] = f
+	}
+	mu.Unlock()
+}
+
+// Reset clears hit counters, callbacks and faults (not the lock tracer).
+func Reset() {
+	mu.Lock()
+	hits = map[string]int{}
+	callbacks = map[string]func(hit int){}
+	faults = map[string]func(hit int) error{}
+	crashAt = map[string]int{}
+	mu.Unlock()
+}
+
+// Hits returns a copy of the hit counters.
+func Hits() map[string]int {
+	mu.Lock()
+	defer mu.Unlock()
+	out := make(map[string]int, len(hits))
+	for k, v := range hits {
+		out[k] = v
+	}
+	return out
+}
+
+// SetLockTracer installs the lock event sink. ev is "acquire" (about to
+// block), "acquired" or "release".
+func SetLockTracer(f func(ev string, kind string, id string, gid int64)) {
+	mu.Lock()
+	lockTrace = f
+	mu.Unlock()
+}
+
+func trace(ev, kind, id string) {
+	mu.Lock()
+	f := lockTrace
+	mu.Unlock()
+	if f != nil {
+		f(ev, kind, id, goid())
+	}
+}
+
+func Acquire(kind string, id string)  { trace("acquire", kind, id) }
+func Acquired(kind string, id string) { trace("acquired", kind, id) }
+func Release(kind string, id string)  { trace("release", kind, id) }
+
+func goid() int64 {
+	var buf [64]byte
+	n := runtime.Stack(buf[:], false)
+	// "goroutine 123 [running]:"
+	f := strings.Fields(string(buf[:n]))
+	if len(f) >= 2 {
+		if id, err := strconv.ParseInt(f[1], 10, 64); err == nil {
+			return id
+		}
+	}
+	return -1
+}
+
+// TuneBadger shrinks the memtable when VERIF_MEMTABLE_MB is set (faster open/close in tests).
+func TuneBadger(opts *badger.Options) {
+	if v := os.Getenv("VERIF_MEMTABLE_MB"); v != "" {
+		if mb, err := strconv.Atoi(v); err == nil && mb > 0 {
+			opts.MemTableSize = int64(mb) << 20
+		}
+	}
+}
